@@ -1,0 +1,57 @@
+//go:build verif
+
+/*
+Copyright 2026 The Volcano Authors.
+
+Licensed under the Apache License, Version 2.0 (the "License");
+you may not use this file except in compliance with the License.
+You may obtain a copy of the License at
+
+    http://www.apache.org/licenses/LICENSE-2.0
+
+Unless required by applicable law or agreed to in writing, software
+distributed under the License is distributed on an "AS IS" BASIS,
+WITHOUT WARRANTIES OR CONDITIONS OF ANY KIND, either express or implied.
+See the License for the specific language governing permissions and
+limitations under the License.
+*/
+
+// Read-only view of the delayed actions (policies with a timeout) for the
+// external verification harness.  The timers themselves are the real ones:
+// the harness runs the controller under a fake clock and advances it.
+
+package job
+
+import "unsafe"
+
+// VerifDelayedAction describes one entry of the controller's delayActionMap.
+type VerifDelayedAction struct {
+	PodName  string
+	TaskName string
+	Event    string
+	Action   string
+	DelayNs  int64
+	// ID distinguishes entries: it changes whenever AddDelayActionForJob stored a new entry
+	// (and armed a new timer) under the same pod name.
+	ID uintptr
+}
+
+// VerifDelayedActions lists the entries stored for a job key ("namespace/name").
+func (v *VerifJobController) VerifDelayedActions(jobKey string) []VerifDelayedAction {
+	v.cc.delayActionMapLock.Lock()
+	defer v.cc.delayActionMapLock.Unlock()
+	var out []VerifDelayedAction
+	for name, d := range v.cc.delayActionMap[jobKey] {
+		out = append(out, VerifDelayedAction{PodName: name, TaskName: d.taskName, Event: string(d.event),
+			Action: string(d.action), DelayNs: int64(d.delay), ID: verifPtr(d)})
+	}
+	return out
+}
+
+// every entry ever reported is kept alive, so that an address is never reused for a later entry
+var verifSeenDelayActions = map[*delayAction]struct{}{}
+
+func verifPtr(d *delayAction) uintptr {
+	verifSeenDelayActions[d] = struct{}{}
+	return uintptr(unsafe.Pointer(d))
+}
